@@ -150,7 +150,7 @@ pub fn exec_op<'tx>(tx: &Tx<'tx>, op: &'tx Op, owned: bool) -> Ret {
         // calls `$f` with the name converted to one of the ToBytes argument types
         macro_rules! with_name {
             ($owned:expr, $salt:expr, $name:expr, |$n:ident| $call:expr) => {{
-                let style = if $owned { 1 + ($name.len() + $salt) % 4 } else { 0 };
+                let style = if $owned { if $name.iter().any(|c| *c >= 0x80) { 1 } else { 1 + ($name.len() + $salt) % 4 } } else { 0 };
                 match style {
                     0 => { let $n = $name.as_slice(); bucket_ret!($call) }
                     1 => match String::from_utf8($name.clone()) {
@@ -175,7 +175,9 @@ pub fn exec_op<'tx>(tx: &Tx<'tx>, op: &'tx Op, owned: bool) -> Ret {
             (Op::Put { key, val, .. }, Some(b)) => {
                 // with `owned` the argument types rotate through everything ToBytes is implemented
                 // for: Vec<u8>, String, bytes::Bytes, &bytes::Bytes, fixed-size arrays
-                let style = if owned { 1 + (key.len() + val.len()) % 5 } else { 0 };
+                // text with multi-byte characters is handed over the way a client holds it: as a String
+                let text = |b: &Vec<u8>| b.iter().any(|c| *c >= 0x80) && std::str::from_utf8(b).is_ok();
+                let style = if owned { if text(key) || text(val) { 2 } else { 1 + (key.len() + val.len()) % 5 } } else { 0 };
                 let r = match style {
                     0 => b.put(key.as_slice(), val.as_slice()),
                     1 => b.put(key.clone(), val.clone()),
